@@ -206,6 +206,16 @@ def sweep_leg(tier, seed, stats):
                        "region": "sweep_len", "entry": "file",
                        "runs": [{"threads": 4, "env": {"OMP_MAX_ACTIVE_LEVELS": "2"}, "delays": [[5, 1, 0, 3, 5]], "variant": "plain"},
                                 {"threads": 2, "env": {"OMP_MAX_ACTIVE_LEVELS": "3"}, "delays": [[3, 1, 0, 2, 20]], "variant": "plain"}]})
+    # thread ladder: anything computed from the team size (batch widths, chunk sizes, task cut-offs) shows as a step between
+    # two neighbouring thread counts; large k-means inputs and a long pair, every count of the ladder against 1 thread
+    ladder = [2, 3, 4, 5, 6, 7, 8, 9, 12, 15, 16, 17, 31, 32, 33, 64]
+    for n, L in ((130, 30), (260, 24), (400, 20), (700, 16), (1000, 12)) + (((1600, 12), (2500, 10)) if tier != "quick" else ()):
+        cases_.append({"seqs": sweeps.family(n, L, "protein" if n % 200 else "dna", salt=seed + 7), "cfg": {"type": 5, "gpo": -1.0, "gpe": -1.0, "tgpe": -1.0},
+                       "region": "ladder_n", "entry": "file",
+                       "runs": [{"threads": t, "env": {"OMP_MAX_ACTIVE_LEVELS": "2"} if t % 2 else {}, "delays": [], "variant": "plain"} for t in ladder]})
+    cases_.append({"seqs": sweeps.family(4, 1500, "dna", salt=seed + 9, indel=0.01), "cfg": {"type": 5, "gpo": -1.0, "gpe": -1.0, "tgpe": -1.0},
+                   "region": "ladder_len", "entry": "file",
+                   "runs": [{"threads": t, "env": {"OMP_MAX_ACTIVE_LEVELS": "3"}, "delays": [], "variant": "plain"} for t in ladder]})
     with ThreadPoolExecutor(max_workers=6) as ex:
         res = list(ex.map(check, cases_))
     out = []
@@ -213,7 +223,8 @@ def sweep_leg(tier, seed, stats):
         stats.record(c, r)
         if r["status"] == "violation":
             out.append({"case": c, "detail": r["detail"], "kind": r.get("kind")})
-    stats.extra["sweep"] = "90..110 sequences and 490..519-column inputs enumerated (4/3/2 threads, nested teams, delays) against the 1-thread run"
+    stats.extra["sweep"] = ("90..110 sequences and 490..519-column inputs enumerated (4/3/2 threads, nested teams, delays) against the 1-thread run; "
+                            "thread ladder 2..64 (16 counts) on 130..1000-sequence inputs and a 1500-column input")
     return out
 
 
